@@ -30,7 +30,16 @@ JudgeDBA(rec) ==
         bad == {r \in 1..Len(rec.news) : cl[r] # "ok"}
         \* the loop performs at most max_it steps
         badloop == {r \in 1..Len(rec.loops) : rec.loops[r].steps > rec.loops[r].maxit}
+        \* sampled (non-optimal) paths: values (floor / ceiling at scale 1000) inside the range of the selected series
+        sel == Selected(rec.mask)
+        badprob == {r \in 1..Len(rec.probs) :
+                      LET pr == rec.probs[r] IN
+                      ~ /\ Len(pr.lo) = Len(rec.avg)
+                        /\ \A i \in 1..Len(pr.lo) : \A d \in 1..Len(pr.lo[i]) :
+                              LET vals == UNION {{rec.ser[z][q][d] : q \in 1..Len(rec.ser[z])} : z \in sel}
+                              IN pr.hi[i][d] >= 1000 * SetMin(vals) /\ pr.lo[i][d] <= 1000 * SetMax(vals)}
     IN IF bad # {} THEN Fail(rec.id, rec.routes[SetMin(bad)] \o ":" \o cl[SetMin(bad)])
+       ELSE IF badprob # {} THEN Fail(rec.id, rec.probs[SetMin(badprob)].route \o ":outside-the-range-of-the-selected-series")
        ELSE IF badloop # {} THEN Fail(rec.id, rec.loops[SetMin(badloop)].route \o ":too-many-steps")
        ELSE TRUE
 
